@@ -11,6 +11,7 @@ from .chains_common import chain_snapshots, chain_always_pushed, scope_lookup_sh
 from .compiler_common import PX
 
 LEVEL = 'other'
+TECHNIQUE = 'static analysis: ordering by dominance in the call-graph builder, scope-walk shape (sibling of C04.R1), provenance of observer chains, always-appended'
 CLAUSE = ('ComponentDb::build registers all matchers, switches matcher auto-registration on, attaches the fallback error handler to every '
           'fallible component still lacking one, then adds the IntoResponse transformers; ErrorHandlersDb::get_or_try_bind tries the current '
           'scope first, continues to the parents on every miss and never to children; in build_call_graph observers are visited in '
